@@ -140,6 +140,19 @@ example : look (cdiv_q 0 0 1 exSt) 1 = .ok [(-1361129467683753853850039665213252
 example : look (fdiv_r 0 0 1 exSt) 1 = .ok [(-1170215327175949668298, 4, 0)] := by decide
 example : look (AliasMem.mod 1 0 1 exSt) 2 = .ok [(2 ^ 200 + 12345, 4, 0), (10376293541461635129, 2, 1)] := by decide
 
+/-- mpz_divexact (mpz/divexact.c): q = n, q = d (quotient built in TMP space and copied back before TMP_FREE),
+    n = d; `d ∣ n` is the documented precondition (the model's mpn_divexact stores N / D whatever N is). -/
+theorem divexact_ptr_spec {s : St} (h : Inv s) {q n d : Nat} (hq : q < s.nv) (hn : n < s.nv) (hd : d < s.nv)
+    (hd0 : s.value d ≠ 0) (_hdvd : s.value d ∣ s.value n) :
+    ∃ s', divexact q n d s = .ok s' ∧ Inv s' ∧ s'.nv = s.nv ∧ s'.value q = DivZ.divexactS (s.value n) (s.value d) ∧
+      ∀ i, i < s.nv → i ≠ q → s'.value i = s.value i :=
+  divexact_ok h hq hn hd hd0
+
+example : look (divexact 0 0 1 (ofInts [-(2 ^ 70 + 3) * (2 ^ 130 + 1), 2 ^ 70 + 3])) 2 =
+    .ok [(-(2 ^ 130 + 1), 4, 0), (2 ^ 70 + 3, 2, 1)] := by decide
+example : look (divexact 1 0 1 (ofInts [-(2 ^ 70 + 3) * (2 ^ 130 + 1), 2 ^ 70 + 3])) 2 =
+    .ok [(-(2 ^ 70 + 3) * (2 ^ 130 + 1), 4, 0), (-(2 ^ 130 + 1), 3, 2)] := by decide
+
 /-- one statement for the three-argument functions: the aliased call leaves in `w` what the call with a distinct
     output variable `w'` leaves in `w'`. -/
 theorem alias3 {f : Nat → Nat → Nat → St → R St} {F : Int → Int → Int} {s : St}
@@ -153,10 +166,10 @@ theorem alias3 {f : Nat → Nat → Nat → St → R St} {F : Int → Int → In
 
 theorem div3_alias {s : St} (h : Inv s) {w w' n d : Nat} (hw : w < s.nv) (hw' : w' < s.nv) (hn : n < s.nv)
     (hd : d < s.nv) (hd0 : s.value d ≠ 0) (f : Nat → Nat → Nat → St → R St)
-    (hf : f = tdiv_q ∨ f = tdiv_r ∨ f = fdiv_q ∨ f = cdiv_q ∨ f = fdiv_r ∨ f = cdiv_r ∨ f = AliasMem.mod) :
+    (hf : f = tdiv_q ∨ f = tdiv_r ∨ f = fdiv_q ∨ f = cdiv_q ∨ f = fdiv_r ∨ f = cdiv_r ∨ f = AliasMem.mod ∨ f = divexact) :
     ∃ sa sd, f w n d s = .ok sa ∧ f w' n d s = .ok sd ∧ sa.value w = sd.value w' ∧
       ∀ i, i < s.nv → i ≠ w → sa.value i = s.value i := by
-  rcases hf with e | e | e | e | e | e | e <;> subst e
+  rcases hf with e | e | e | e | e | e | e | e <;> subst e
   · exact alias3 (fun w hw => tdiv_q_ok h hw hn hd hd0) hw hw'
   · exact alias3 (fun w hw => tdiv_r_ok h hw hn hd hd0) hw hw'
   · exact alias3 (fun w hw => cfdiv_q_ok false h hw hn hd hd0) hw hw'
@@ -164,6 +177,7 @@ theorem div3_alias {s : St} (h : Inv s) {w w' n d : Nat} (hw : w < s.nv) (hw' : 
   · exact alias3 (fun w hw => cfdiv_r_ok false h hw hn hd hd0) hw hw'
   · exact alias3 (fun w hw => cfdiv_r_ok true h hw hn hd hd0) hw hw'
   · exact alias3 (fun w hw => mod_ok h hw hn hd hd0) hw hw'
+  · exact alias3 (fun w hw => divexact_ok h hw hn hd hd0) hw hw'
 
 /-! ## negative examples: the model can exhibit the aliasing bugs the C guards against -/
 
@@ -186,5 +200,11 @@ example : look (tdiv_qr 1 3 1 0 exSt) 4 =
 -- fdiv_qr without temp_divisor (fdiv_qr.c:39-44), r = d: `rem += divisor` adds the preliminary remainder to itself
 example : look (cfdiv_qrV { fdivCopy := false } false 2 1 0 1 exSt) 2 =
     .ok [(2 ^ 200 + 12345, 4, 0), (20752587082923270258, 2, 1)] := by decide
+-- mpz_divexact with the quotient written straight into quot although quot is den (divexact.c:68-69 removed)
+example : errOf (divexactV { divexactTmp := false } 1 0 1 (ofInts [-(2 ^ 70 + 3) * (2 ^ 130 + 1), 2 ^ 70 + 3])) =
+    "ub:mpn_divexact operands overlap" := by decide
+-- mpz_divexact copying the scratch quotient back after TMP_FREE (divexact.c:79-82 the other way round), q = n
+example : errOf (divexactV { copyBeforeFree := false } 0 0 1 (ofInts [-(2 ^ 70 + 3) * (2 ^ 130 + 1), 2 ^ 70 + 3])) =
+    "ub:read of a freed block" := by decide
 
 end Mpir.AliasMem
